@@ -61,3 +61,149 @@ pub fn n_c14_value_order() {
     }
     vk_check!((ab == Equal) == same, "cmp == Equal is not the same as ==");
 }
+
+// C20: independent reading of the AUTOSAR integer forms 0 | [+-]?[1-9][0-9]* | 0[xX]hex+ | 0[bB][01]+ | 0[0-7]+
+#[cfg(not(kani))]
+fn n_ref_integer(s: &[u8]) -> Option<(bool, Option<u128>)> {
+    fn acc(ds: &[u8], radix: u32) -> Option<Option<u128>> {
+        if ds.is_empty() {
+            return None;
+        }
+        let mut v: Option<u128> = Some(0);
+        for d in ds {
+            let dv = (*d as char).to_digit(radix)? as u128;
+            v = v.and_then(|x| x.checked_mul(radix as u128)).and_then(|x| x.checked_add(dv));
+        }
+        Some(v)
+    }
+    if s.is_empty() {
+        return None;
+    }
+    if s[0] == b'0' {
+        if s.len() == 1 {
+            return Some((false, Some(0)));
+        }
+        return match s[1] {
+            b'x' | b'X' => acc(&s[2..], 16).map(|v| (false, v)),
+            b'b' | b'B' => acc(&s[2..], 2).map(|v| (false, v)),
+            _ => acc(&s[1..], 8).map(|v| (false, v)),
+        };
+    }
+    let (neg, ds) = match s[0] {
+        b'-' => (true, &s[1..]),
+        b'+' => (false, &s[1..]),
+        _ => (false, s),
+    };
+    if ds.is_empty() || !(b'1'..=b'9').contains(&ds[0]) {
+        return None;
+    }
+    acc(ds, 10).map(|v| (neg, v))
+}
+
+#[cfg(not(kani))]
+fn n_check_int<T>(text: &str, min: i128, max: i128, conv: fn(T) -> i128)
+where
+    T: num_traits::Num + TryFrom<u64>,
+{
+    let got = CharacterData::String(text.to_string()).parse_integer::<T>().map(conv);
+    let Some((neg, mag)) = n_ref_integer(text.as_bytes()) else { return; };
+    let val: Option<i128> = mag.and_then(|m| i128::try_from(m).ok()).map(|m| if neg { -m } else { m });
+    let want = val.filter(|v| *v >= min && *v <= max);
+    vk_check!(got == want, "parse_integer does not return the exact value of an AUTOSAR integer text (or returns one that does not fit)");
+}
+
+#[cfg(not(kani))]
+pub fn n_c20_integer() {
+    let ty = vk::any_u8();
+    let len = vk::any_usize();
+    let mut v = std::vec::Vec::new();
+    for _ in 0..len {
+        v.push(vk::any_u8());
+    }
+    let text = String::from_utf8(v).expect("VK_REPLAY_SHAPE");
+    match ty {
+        0 => n_check_int::<u8>(&text, 0, u8::MAX as i128, |x| x as i128),
+        1 => n_check_int::<i8>(&text, i8::MIN as i128, i8::MAX as i128, |x| x as i128),
+        2 => n_check_int::<u16>(&text, 0, u16::MAX as i128, |x| x as i128),
+        3 => n_check_int::<i16>(&text, i16::MIN as i128, i16::MAX as i128, |x| x as i128),
+        4 => n_check_int::<u32>(&text, 0, u32::MAX as i128, |x| x as i128),
+        5 => n_check_int::<i32>(&text, i32::MIN as i128, i32::MAX as i128, |x| x as i128),
+        6 => n_check_int::<u64>(&text, 0, u64::MAX as i128, |x| x as i128),
+        _ => n_check_int::<i64>(&text, i64::MIN as i128, i64::MAX as i128, |x| x as i128),
+    }
+}
+
+#[cfg(not(kani))]
+pub fn n_c20_bool() {
+    let len = vk::any_usize();
+    let mut v = std::vec::Vec::new();
+    for _ in 0..len {
+        v.push(vk::any_u8());
+    }
+    let text = String::from_utf8(v).expect("VK_REPLAY_SHAPE");
+    let want = match text.as_str() {
+        "true" | "1" => Some(true),
+        "false" | "0" => Some(false),
+        _ => None,
+    };
+    vk_check!(CharacterData::String(text).parse_bool() == want, "parse_bool wrong");
+}
+
+#[cfg(not(kani))]
+pub fn n_c20_float_radix() {
+    let len = vk::any_usize();
+    let mut v = std::vec::Vec::new();
+    for _ in 0..len {
+        v.push(vk::any_u8());
+    }
+    let text = String::from_utf8(v).expect("VK_REPLAY_SHAPE");
+    let Some((neg, mag)) = n_ref_integer(text.as_bytes()) else { return; };
+    if neg || !text.starts_with('0') {
+        return;
+    }
+    let got = CharacterData::String(text.clone()).parse_float();
+    if let Some(m) = mag.and_then(|m| u64::try_from(m).ok()) {
+        vk_check!(got.map(f64::to_bits) == Some((m as f64).to_bits()), "parse_float does not return the value of a radix-prefixed text");
+    }
+}
+
+// C17 (value level): compatibility verdict == check_value == re-validating the text == item table
+#[cfg(not(kani))]
+pub fn n_c17_value() {
+    let kind = vk::any_u8();
+    let bit = vk::any_u32();
+    let target = AutosarVersion::from_val(bit).expect("VK_REPLAY_SHAPE");
+    let item = |i: u16| -> EnumItem {
+        assert!(i < 2810, "VK_REPLAY_SHAPE");
+        unsafe { core::mem::transmute::<u16, EnumItem>(i) }
+    };
+    if kind == 0 {
+        let i0 = vk::any_u16();
+        let m0 = vk::any_u32();
+        let i1 = vk::any_u16();
+        let m1 = vk::any_u32();
+        let vi = vk::any_u16();
+        let rows: &'static [(EnumItem, u32)] = std::boxed::Box::leak(std::boxed::Box::new([(item(i0), m0), (item(i1), m1)]));
+        let spec = CharacterDataSpec::Enum { items: rows };
+        let value = CharacterData::Enum(item(vi));
+        let (okc, mask) = value.check_version_compatibility(&spec, target);
+        let cv = CharacterData::check_value(&value, &spec, target);
+        let p = CharacterData::parse(item(vi).to_str(), &spec, target).is_some();
+        let want = if i0 == vi { m0 & bit != 0 } else { i1 == vi && m1 & bit != 0 };
+        vk_check!(okc == cv, "check_version_compatibility and check_value disagree");
+        vk_check!(okc == p, "check_version_compatibility disagrees with re-validating the value text");
+        vk_check!(okc == (mask & bit != 0), "returned mask does not contain the target version exactly when compatible");
+        vk_check!(okc == want, "compatibility verdict differs from the item table");
+    } else {
+        let (value, spec) = if kind == 1 {
+            (CharacterData::UnsignedInteger(vk::any_u64()), CharacterDataSpec::UnsignedInteger)
+        } else {
+            let a = vk::any_u8();
+            let b = vk::any_u8();
+            (CharacterData::String(String::from_utf8(std::vec![a, b]).expect("VK_REPLAY_SHAPE")), CharacterDataSpec::String { preserve_whitespace: false, max_length: Some(3) })
+        };
+        let (okc, mask) = value.check_version_compatibility(&spec, target);
+        vk_check!(okc && (mask & bit != 0), "a value without version restrictions is reported incompatible");
+        vk_check!(CharacterData::check_value(&value, &spec, target), "check_value rejects a conforming value");
+    }
+}
